@@ -67,6 +67,7 @@ pub fn make_case(prop: &str, seed: u64, tier: Tier) -> Case {
             h.w_intern_out = if g.intern_ops { 4 } else { 0 };
             knobs.hash_mod = if r.pct(50) { 1 } else { 0 };
             knobs.fresh_every = if r.pct(30) { 4 } else { 0 };
+            h.motif_pct = 35;
             if r.pct(35) {
                 class = "disturbed".into();
                 h.w_setlru = 3;
@@ -79,8 +80,8 @@ pub fn make_case(prop: &str, seed: u64, tier: Tier) -> Case {
         }
         "C02" => {
             // durability churn: many input reads behind input-controlled branches, every write draws a durability
-            g.kinds = vec![(Kind::Plain, 10), (Kind::NoEq, 2), (Kind::Multi, 2), (Kind::Mk, 2)];
-            g.ts_ops = r.pct(30);
+            g.kinds = vec![(Kind::Plain, 10), (Kind::NoEq, 2), (Kind::Multi, 2), (Kind::Mk, 4)];
+            g.ts_ops = r.pct(50);
             g.on_ts = true;
             g.nodes = (3, 9);
             g.inputs = (2, 4);
@@ -98,6 +99,7 @@ pub fn make_case(prop: &str, seed: u64, tier: Tier) -> Case {
                 class = "churn".into();
             }
             knobs.fresh_every = if r.pct(20) { 5 } else { 0 };
+            h.motif_pct = 60;
         }
         "C03" => {
             g.kinds = vec![(Kind::Plain, 10), (Kind::NoEq, 2), (Kind::Multi, 2), (Kind::Ref, 2), (Kind::Mk, 3), (Kind::Lru, 1)];
@@ -112,6 +114,7 @@ pub fn make_case(prop: &str, seed: u64, tier: Tier) -> Case {
             h.w_setext = 3;
             h.w_burst = 2;
             class = if g.ts_ops || g.intern_ops { "structs".into() } else { "core".into() };
+            h.motif_pct = 35;
         }
         "C04" => {
             g.kinds = vec![(Kind::Plain, 10), (Kind::NoEq, 1), (Kind::Multi, 2), (Kind::Lru, 2), (Kind::Mk, 1)];
@@ -135,6 +138,7 @@ pub fn make_case(prop: &str, seed: u64, tier: Tier) -> Case {
             g.ops = (3, 10);
             h.w_query = 55;
             h.w_set = 35;
+            h.motif_pct = 35;
             class = "structs".into();
         }
         "C05" => {
@@ -302,9 +306,63 @@ pub fn make_case(prop: &str, seed: u64, tier: Tier) -> Case {
         }
         return Case { property: prop.to_string(), engine: "e1".into(), class, seed, knobs, prog, world: (&world).into(), hist, panic_at: None, fault_mask: u32::MAX, conc: None, expect: vec![] };
     }
-    let prog = gen_acyclic(&mut r, &g);
-    let world = gen_world(&mut r, prog.n_inputs, prog.n_cells, prog.m);
-    let hist = gen_history(&mut r, &prog, &h);
+    // swarm knob: tiny programs (few nodes, 1-3 ops per body, 1-2 inputs): every body reads
+    // few things, so durability mixes, equal values and exact dependency shapes are common
+    if r.pct(40) {
+        g.nodes = (2.max(g.nodes.0.min(3)), 6);
+        g.ops = (1, 3);
+        g.inputs = (1, 2);
+        class = format!("{class}+tiny");
+    }
+    let mut prog = gen_acyclic(&mut r, &g);
+    let mut world = gen_world(&mut r, prog.n_inputs, prog.n_cells, prog.m);
+    // debugging aid: explore histories over a fixed program (never set by the checks)
+    if let Ok(p) = std::env::var("VERIF_FIXED_PROG") {
+        let c: Case = serde_json::from_str(&std::fs::read_to_string(p).unwrap()).unwrap();
+        prog = c.prog;
+        world = (&c.world).into();
+    }
+    let mut hist = gen_history(&mut r, &prog, &h);
+    // durability profile: the history starts by giving every field a durability, so that
+    // memos above LOW durability (and later decreases / increases) are common
+    let profile_pct = match prop {
+        "C02" => 85,
+        "C01" | "C03" | "C06" | "C11" => 35,
+        "C07" | "C09" => 50,
+        _ => 0,
+    };
+    if r.pct(h.motif_pct) {
+        hist = splice_motifs(&mut r, &prog, &world, hist);
+        class = format!("{class}+motifs");
+    }
+    if r.pct(profile_pct) {
+        let style = r.below(4);
+        let mut pre = vec![];
+        for i in 0..prog.n_inputs {
+            let per_input = *r.pick(&[Dur::Low, Dur::Medium, Dur::High, Dur::High]);
+            for f in 0..3 {
+                let d = match style {
+                    0 => Dur::High,
+                    1 => Dur::Medium,
+                    2 => per_input,
+                    _ => *r.pick(&[Dur::Low, Dur::Medium, Dur::High]),
+                };
+                pre.push(Step::SetIn { i: i as u16, f: f as u8, v: world.ins[i][f], d: Some(d) });
+            }
+        }
+        class = format!("{class}+durprofile{style}");
+        // with a profile, most writes keep the field's durability and some move it one level
+        for s in hist.iter_mut() {
+            if let Step::SetIn { d, .. } = s {
+                if r.pct(60) {
+                    *d = None;
+                }
+            }
+        }
+        pre.extend(hist);
+        hist = pre;
+    }
+
     Case { property: prop.to_string(), engine: "e1".into(), class, seed, knobs, prog, world: (&world).into(), hist, panic_at: None, fault_mask: u32::MAX, conc: None, expect: vec![] }
 }
 
